@@ -9,7 +9,7 @@ from ..astutil import (
 )
 from ..report import Registry, sub
 from ._helpers_rules_b import (
-    ORD, PARAM, SET, TAINTED, UNKNOWN, Kind, OrderFlow, arg_for, call_sites, ordinal_keys,
+    ORD, PARAM, SET, TAINTED, UNKNOWN, Kind, OrderFlow, arg_for, call_sites, ordinal_keys, topo_flow,
 )
 
 R = Registry(
@@ -34,27 +34,12 @@ TOPO = "util/topological.py"
 ANCHOR_FILES = ("orm/unitofwork.py", "sql/ddl.py", "sql/schema.py")
 
 
-def _flow(ctx) -> OrderFlow:
-    """Contract of the two sort entry points: 1st parameter (edge pairs) is an unordered
-    collection (callers pass sets), 2nd parameter (items) carries the caller's order."""
-    pk = {}
-    for name in ("sort_as_subsets", "sort"):
-        f = ctx.func(f"{TOPO}::{name}")
-        ctx.require(len(f.params) >= 2, f"{name} no longer takes (edge pairs, items)")
-        pk[(f.key, f.params[0])] = Kind(SET, f"edge-pair parameter `{f.params[0]}` (callers pass sets)")
-        pk[(f.key, f.params[1])] = Kind(ORD, f"items parameter `{f.params[1]}` (the caller's order)")
-    f = ctx.func(f"{TOPO}::find_cycles")
-    for p in f.params[:2]:
-        pk[(f.key, p)] = Kind(SET, f"parameter `{p}` of find_cycles (order-free by contract)")
-    return OrderFlow(ctx, param_kinds=pk)
-
-
 @R.rule("C19-R1", floor=4, template="T-FLOW",
         desc="order taint: every sequence yielded by sort_as_subsets/sort is ordered by the `allitems` "
              "argument only (no set iteration reaches a yielded sequence or decides when a yield happens); "
              "find_cycles/_gen_edges return sets (order-free by type)")
 def r1(ctx):
-    of = _flow(ctx)
+    of = topo_flow(ctx)
     for name in ("sort_as_subsets", "sort"):
         f = ctx.func(f"{TOPO}::{name}")
         ys = sorted((n for n in walk_local(f.node) if isinstance(n, (ast.Yield, ast.YieldFrom))),
@@ -124,7 +109,7 @@ def _disjoint_atom(test_text: str, S: str, E: str, node: str):
     return None
 
 
-@R.rule("C19-R2", floor=5, template="T-GUARD",
+@R.rule("C19-R2", floor=6, template="T-GUARD",
         desc="a node is emitted only under the test that none of its parents is still pending; emitted "
              "nodes leave the pending set before the next round; an empty round raises "
              "CircularDependencyError carrying find_cycles(pairs, items)")
@@ -240,11 +225,11 @@ def r2(ctx):
               f"cycles=find_cycles({tuples_p}, {items_p})", f.loc)
 
 
-@R.rule("C19-R3", floor=9, template="T-SIBLING/T-FLOW",
+@R.rule("C19-R3", floor=17, template="T-SIBLING/T-FLOW",
         desc="every call of topological.sort / sort_as_subsets in the package passes an ordered `allitems` "
              "(sorted(..), a list, a dict view, an ordered set); a parameter is followed to the callers")
 def r3(ctx):
-    of = _flow(ctx)
+    of = topo_flow(ctx)
     targets = [ctx.func(f"{TOPO}::sort"), ctx.func(f"{TOPO}::sort_as_subsets")]
     sites = []
     for t in targets:
